@@ -284,6 +284,13 @@ def run_rules(ctx, db, fns, summaries, nullable):
 def _logger_nonnull_at(f, call):
     """must-analysis over the CFG: on every path to `call` the last test of error_logger took the non-null edge
     (covers `if (error_logger) log`, `if (!error_logger) return; log`, `error_logger && log`, `cond ? ... : ...`)"""
+    # syntactic case first (also the only one available for code put back from a helper, which has no CFG position of its own):
+    # the call sits in the branch of an enclosing `if` that tests the pointer
+    from .. import tables
+    for cnd, pol in tables.path_conds(call):
+        nt = null_test(cnd)
+        if nt and nt[0].endswith('error_logger') and ((nt[1] and not pol) or ((not nt[1]) and pol)):
+            return True
     cache = getattr(f, '_logger_nn', None)
     g = f.cfg
     if cache is None:
